@@ -659,3 +659,6 @@ def run(repo, chk, tier):
     chk.require_count("E3-list", MIN_LIST)
     chk.require_count("E3-sink", len(IMPLEMENTED_MIN))
     chk.require_count("E3-src", 2)
+    from .c02_ref import check_ref
+
+    check_ref(repo, chk)
